@@ -848,6 +848,47 @@ func (w *World) rulesLen(out *[]Obligation) {
 			}
 			return n
 		}
+		// the sizing value as Vector computes it: the statements of Vector that
+		// precede the buffer's make are evaluated and the capacity argument read
+		// (covers a sizing function that takes something derived from the object)
+		var preMake []ast.Stmt
+		if em.Fn != nil && em.Fn.Body != nil && em.MakeCall != nil && len(em.MakeCall.Args) == 3 {
+			for _, st := range em.Fn.Body.List {
+				if nodeContains(st, em.MakeCall) {
+					break
+				}
+				preMake = append(preMake, st)
+			}
+		}
+		Fdirect := F
+		F = func(codes map[string]int) (int64, error) {
+			v, err := Fdirect(codes)
+			if err == nil || preMake == nil {
+				return v, err
+			}
+			bytes, err2 := p.bytesFromCodes(codes)
+			if err2 != nil {
+				return 0, err
+			}
+			ce := newCEnv(p, bytes)
+			for _, st := range preMake {
+				ct, _, e3 := ce.exec(st)
+				if e3 != nil {
+					return 0, fmt.Errorf("%v; evaluating Vector up to its make: %v", err, e3)
+				}
+				if ct == cReturn {
+					return 0, err
+				}
+			}
+			cv, e4 := ce.eval(em.MakeCall.Args[2])
+			if e4 != nil {
+				return 0, fmt.Errorf("%v; evaluating the capacity argument: %v", err, e4)
+			}
+			if cv.K != VInt {
+				return 0, err
+			}
+			return cv.I, nil
+		}
 		zero := map[string]int{}
 		f0, err := F(zero)
 		if err != nil {
